@@ -286,7 +286,8 @@ func (b *BandDense) Zero() {
 	m := b.mat.Rows
 	kL := b.mat.KL
 	nCol := b.mat.KU + 1 + kL
-	for i := 0; i < m; i++ {
+	// Only the first Cols+KL rows of a tall matrix hold band elements.
+	for i := 0; i < min(m, b.mat.Cols+kL); i++ {
 		l := max(0, kL-i)
 		u := min(nCol, m+kL-i)
 		zero(b.mat.Data[i*b.mat.Stride+l : i*b.mat.Stride+u])
